@@ -64,12 +64,12 @@ CHECKS = {
             'custom class ids explored inside a window of K ids above 10000 (stated in evidence); pool of 3 custom names',
             'DESIGN.md 5.C19'),
     'C17': ('E-fault', 'fault_enumeration',
-            'exhaustive fault placement: one database fault of every kind at every SQL statement index of every corpus request on the real service (thorough: pairs)',
+            'exhaustive fault placement: one database fault of every kind at every SQL statement index of every corpus request on the real service (thorough: pairs and triples)',
             'Corpus of 35 entries covering every write route in a state where it succeeds and, for the multi-step ones, in one where '
             'it is rejected after its write transaction started, plus start-up synchronisation on an empty, partial and full database; '
             'for every statement index k and every fault kind (deadlock with the transaction left open, deadlock with the transaction '
             'rolled back by the DBMS, duplicate key with a racing creator whose row becomes visible after the transaction, connection, '
-            'generic, raw driver error) the request is re-run with the fault at statement k; thorough adds every second fault after a '
+            'generic, raw driver error) the request is re-run with the fault at statement k; thorough adds every second (and third) fault after a '
             'successfully retried first one. Oracle: 2xx implies the same rows as the fault-free run with generations moved exactly '
             'where it moved them, an error is a well-formed JSON error and leaves the pre-state; faults inside the retry-wrapped '
             'functions must be retried (statement re-execution counted).',
